@@ -275,3 +275,10 @@ func init() {
 			"case *zed.TypeOfUint8, *zed.TypeOfUint16, *zed.TypeOfUint32, *zed.TypeOfUint64, *zed.TypeEnum:", "case *zed.TypeOfUint8, *zed.TypeOfUint16, *zed.TypeOfUint32, *zed.TypeOfUint64:", "C03-K2", "loadVals type dispatch lacks TypeEnum"},
 	)
 }
+
+func init() {
+	addMutants(
+		Mutant{"C11", "c11-under-spins-on-null-union", "value.go", "Value.under",
+			"if !ok || bytes == nil {", "if !ok {", "C11-U1", "under untags in a loop"},
+	)
+}
